@@ -94,7 +94,14 @@ def _over_symbolic_seq(ex, e, g, st, it):
     elem = it.elem if isinstance(it, PSeq) else 'val'
     item = ZV('ref', Val.ref(arr[j]), elem[4:]) if elem.startswith('ref:') else ZV('val', arr[j])
     outs = []
+    from .engine import NEXT
     for s1, fl in ex.assign(base, g.target, item):
+        if fl is not NEXT:
+            # binding the loop target failed for some index (e.g. an item that cannot be unpacked)
+            bad = st.copy(); jb = fresh('jbad', IntSort())
+            bad.assume(0 <= jb, jb < n, *[z3.substitute(c, (j, jb)) for c in s1.pc[npc:]]); bad.label(f'L{e.lineno}.comp:unpack')
+            if ex.feasible(bad): outs.append((bad, Raise(fl[1])))
+            continue
         if isinstance(e, ast.DictComp):
             res = [(s2, kv) for s2, kv in ex.evs([e.key, e.value], s1)]
         else:
